@@ -14,6 +14,7 @@
 """Adapter management
 """
 import itertools
+import threading
 import weakref
 
 from zope.interface import Interface
@@ -762,16 +763,24 @@ class AdapterLookupBase:
     def __init__(self, registry):
         self._registry = registry
         self._required = {}
+        # Lookups run concurrently in threads that share one registry,
+        # and each of them can end up in ``_subscribe`` or ``changed``
+        # (a verifying registry calls ``changed`` from inside a lookup).
+        # Both of them read, modify and write the record of what we
+        # are subscribed to. (Re-entrant, because a specification's
+        # ``subscribe`` can call back into us.)
+        self._required_lock = threading.RLock()
         self.init_extendors()
         super().__init__()
 
     def changed(self, ignored=None):
-        super().changed(None)
-        for r in self._required.keys():
-            r = r()
-            if r is not None:
-                r.unsubscribe(self)
-        self._required.clear()
+        with self._required_lock:
+            super().changed(None)
+            for r in tuple(self._required.keys()):
+                r = r()
+                if r is not None:
+                    r.unsubscribe(self)
+            self._required.clear()
 
     # Extendors
     # ---------
@@ -821,12 +830,13 @@ class AdapterLookupBase:
                              if e != provided]
 
     def _subscribe(self, *required):
-        _refs = self._required
-        for r in required:
-            ref = r.weakref()
-            if ref not in _refs:
-                r.subscribe(self)
-                _refs[ref] = 1
+        with self._required_lock:
+            _refs = self._required
+            for r in required:
+                ref = r.weakref()
+                if ref not in _refs:
+                    r.subscribe(self)
+                    _refs[ref] = 1
 
     def _uncached_lookup(self, required, provided, name=''):
         required = tuple(required)
@@ -996,7 +1006,17 @@ class VerifyingAdapterLookup(AdapterLookupBase, VerifyingBase):
             # to verify. This must be done on every change, not only
             # when ``_verify`` noticed a new generation, because the
             # generations are snapshotted again below.
-            registry.ro = ro.ro(registry)
+            #
+            # ``changed`` can run in a thread that only performs
+            # lookups (see ``_verify``) while another thread assigns
+            # ``__bases__``; that assignment ends with a call to this
+            # method as well, so doing the read-compute-store under the
+            # lock makes the order computed from the new bases the one
+            # that is stored last.
+            with self._required_lock:
+                registry.ro = ro.ro(registry)
+                super().changed(originally_changed)
+            return
         super().changed(originally_changed)
 
 
